@@ -9,6 +9,11 @@
 (* (immediately, through a Deferred fired later, or from a coroutine), or  *)
 (* makes connections through a specific circuit, identified by the local   *)
 (* source port of their SOCKS connection.                                  *)
+(*                                                                         *)
+(* The installed attacher may also be a PriorityAttacher (attacher.py): a  *)
+(* composition of sub-attachers added with a priority and removed again;   *)
+(* they are consulted most important first (lower number; ties in the      *)
+(* order they were added) and the first one with a preference decides.     *)
 (***************************************************************************)
 EXTENDS Naturals, Integers, Sequences, FiniteSets, TLC
 
@@ -16,15 +21,21 @@ CONSTANTS Circs,      \* circuit ids
           Streams,    \* stream ids
           Conns,      \* via-circuit connections
           Ports,      \* local source ports
-          MaxSteps    \* bound (model checking only)
+          MaxSteps,   \* bound (model checking only)
+          MaxSubs     \* sub-attachers a PriorityAttacher may hold (0: the composition is not explored)
 
 CircAns == {"c1", "c2"}                  \* "the attacher returned circuit 1 / 2"
 CircOfAns(a) == IF a = "c1" THEN 1 ELSE 2
 Answers == {"none", "dna", "unknown", "noncirc"} \cup CircAns
 Modes == {"imm", "def", "coro"}
+Subs == {"x", "y", "z"}                  \* sub-attachers of the PriorityAttacher
+Prios == 0..2
+SubAnswers == {"none", "dna", "c1", "c2"}
 
 VARIABLES
-  att,      \* installed attacher: "none" | "A" (scripted) | "V" (the via-circuit attacher)
+  att,      \* installed attacher: "none" | "A" (scripted) | "V" (the via-circuit attacher) | "P" (the PriorityAttacher)
+  ps,       \* the PriorityAttacher's sub-attachers in the order they were added: <<[sub, prio]>>
+  cons,     \* sub-attachers consulted in this step, in order
   cs,       \* circuit id -> "none" | "BUILDING" | "BUILT" | "GONE"
   st,       \* stream -> [seen, kind, port, ans (pending deferred answer or "-"), dec (decisions sent), rep (errors reported), asked]
   via,      \* conn -> [st: "idle"|"waitaddr"|"reg"|"done"|"refused", circ, port]
@@ -33,7 +44,7 @@ VARIABLES
   cq,       \* commands queued behind that SETCONF (one command is on the wire at a time)
   steps
 
-vars == <<att, cs, st, via, wire, hold, cq, steps>>
+vars == <<att, ps, cons, cs, st, via, wire, hold, cq, steps>>
 
 S0 == [seen |-> FALSE, kind |-> "", port |-> 0, ans |-> "-", dec |-> <<>>, rep |-> 0, asked |-> 0, end |-> ""]
 V0 == [st |-> "idle", circ |-> 0, port |-> 0]
@@ -42,8 +53,9 @@ Init ==
   /\ att = "none" /\ cs = [c \in Circs |-> "none"]
   /\ st = [s \in Streams |-> S0] /\ via = [k \in Conns |-> V0]
   /\ wire = <<>> /\ hold = FALSE /\ cq = <<>> /\ steps = 0
+  /\ ps = <<>> /\ cons = <<>>
 
-Tick == steps' = steps + 1
+Tick == steps' = steps + 1 /\ cons' = <<>> /\ UNCHANGED ps
 \* commands issued in a step reach the wire at once unless the connection is busy with the held SETCONF
 Out(W) == IF hold THEN wire' = <<>> /\ cq' = cq \o W /\ UNCHANGED hold
                   ELSE wire' = W /\ UNCHANGED <<cq, hold>>
@@ -62,7 +74,7 @@ ViaFor(p) == {k \in Conns : via[k].st = "reg" /\ via[k].port = p}
 \* Tor reports a stream we have not seen before
 NewStream(s, kind, p, a, mode) ==
   /\ ~st[s].seen /\ kind \in {"normal", "exit", "resolve"} /\ p \in Ports
-  /\ a \in Answers /\ mode \in Modes
+  /\ a \in Answers /\ mode \in Modes /\ att # "P"
   /\ IF att = "none" \/ kind = "exit"
      THEN /\ st' = [st EXCEPT ![s] = [S0 EXCEPT !.seen = TRUE, !.kind = kind, !.port = p]]
           /\ Out(<<>>) /\ UNCHANGED via
@@ -85,6 +97,37 @@ NewStream(s, kind, p, a, mode) ==
                /\ Out(<< <<"ATTACHSTREAM", s, 0>> >>) /\ UNCHANGED via
   /\ Tick /\ UNCHANGED <<att, cs>>
 
+\* ---- PriorityAttacher ----
+\* consultation order: most important (lowest number) first, ties in the order of addition
+Ord(q) == SelectSeq(q, LAMBDA e : e.prio = 0) \o SelectSeq(q, LAMBDA e : e.prio = 1) \o SelectSeq(q, LAMBDA e : e.prio = 2)
+InPS(x) == \E i \in 1..Len(ps) : ps[i].sub = x
+\* index (in consultation order) of the first sub-attacher that has a preference; 0 if none has
+Winner(o, sa) == IF \E i \in 1..Len(o) : sa[o[i].sub] # "none"
+                 THEN CHOOSE i \in 1..Len(o) : sa[o[i].sub] # "none" /\ \A j \in 1..(i - 1) : sa[o[j].sub] = "none"
+                 ELSE 0
+AddSub(x, pr) ==
+  /\ x \in Subs /\ pr \in Prios /\ ~InPS(x) /\ Len(ps) < MaxSubs
+  /\ ps' = Append(ps, [sub |-> x, prio |-> pr])
+  /\ steps' = steps + 1 /\ cons' = <<>> /\ Out(<<>>) /\ UNCHANGED <<att, cs, st, via>>
+RemSub(x) ==
+  /\ InPS(x)
+  /\ ps' = SelectSeq(ps, LAMBDA e : e.sub # x)
+  /\ steps' = steps + 1 /\ cons' = <<>> /\ Out(<<>>) /\ UNCHANGED <<att, cs, st, via>>
+\* Tor reports a new stream while the PriorityAttacher is installed; sa = what each sub-attacher would answer
+NewStreamP(s, kind, p, sa) ==
+  /\ att = "P" /\ ~st[s].seen /\ kind \in {"normal", "exit", "resolve"} /\ p \in Ports
+  /\ sa \in [Subs -> SubAnswers]
+  /\ IF kind = "exit"
+     THEN /\ st' = [st EXCEPT ![s] = [S0 EXCEPT !.seen = TRUE, !.kind = kind, !.port = p]]
+          /\ Out(<<>>) /\ cons' = <<>>
+     ELSE LET o == Ord(ps)
+              w == Winner(o, sa)
+              d == Decide(s, IF w = 0 THEN "none" ELSE sa[o[w].sub])
+          IN /\ st' = [st EXCEPT ![s] = [S0 EXCEPT !.seen = TRUE, !.kind = kind, !.port = p, !.dec = d.dec, !.rep = d.rep, !.asked = 1]]
+             /\ Out(d.w)
+             /\ cons' = [i \in 1..(IF w = 0 THEN Len(o) ELSE w) |-> o[i].sub]
+  /\ steps' = steps + 1 /\ UNCHANGED <<att, ps, cs, via>>
+
 \* the Deferred the scripted attacher returned fires
 Answer(s) ==
   /\ st[s].seen /\ st[s].ans # "-"
@@ -106,10 +149,10 @@ LateClosed(s) ==
 
 \* TorState.set_attacher
 SetAttacher(a) ==
-  /\ a \in {"A", "B", "none"}
+  /\ a \in {"A", "B", "P", "none"} /\ (a = "P" => MaxSubs > 0)
   /\ IF a = "none"
      THEN att' = "none" /\ Out(<< <<"SETCONF", 0, 0>> >>)
-     ELSE IF att = "none" /\ a = "A" THEN att' = "A" /\ Out(<< <<"SETCONF", 0, 1>> >>)
+     ELSE IF att = "none" /\ a \in {"A", "P"} THEN att' = a /\ Out(<< <<"SETCONF", 0, 1>> >>)
      ELSE \* the same attacher again: nothing; a different one (B, or A while V is installed): refused
           UNCHANGED att /\ Out(<<>>)
   /\ (a = "B" => att # "none")       \* B is only used as "a second, different attacher"
@@ -126,7 +169,7 @@ AfterConf(c) == IF cs[c] = "BUILT" THEN "waitaddr" ELSE IF cs[c] = "BUILDING" TH
 \* the attacher that is being installed and go straight on.
 ViaConnect(k, c, late) ==
   /\ via[k].st = "idle" /\ cs[c] \in {"BUILDING", "BUILT"}
-  /\ att # "A"      \* the via-circuit API and a user attacher are not mixed (documented as an error)
+  /\ att \notin {"A", "P"}      \* the via-circuit API and a user attacher are not mixed (documented as an error)
   /\ late \in BOOLEAN /\ (late => att = "none")
   /\ via' = [via EXCEPT ![k] = [st |-> IF late THEN "waitconf" ELSE AfterConf(c), circ |-> c, port |-> 0]]
   /\ att' = "V"
@@ -165,11 +208,14 @@ Next ==
   /\ \/ \E s \in Streams, kind \in {"normal", "exit", "resolve"}, p \in Ports, a \in Answers, mode \in Modes :
           NewStream(s, kind, p, a, mode) /\ (att # "A" => a = "none" /\ mode = "imm")
      \/ \E s \in Streams : Answer(s) \/ StreamFailed(s) \/ LateClosed(s)
-     \/ \E a \in {"A", "B", "none"} : SetAttacher(a)
+     \/ \E a \in {"A", "B", "P", "none"} : SetAttacher(a)
      \/ \E k \in Conns, c \in Circs, late \in BOOLEAN : ViaConnect(k, c, late)
      \/ ConfAck
      \/ \E k \in Conns, p \in Ports : ViaAddr(k, p)
      \/ \E c \in Circs, to \in {"BUILDING", "BUILT", "GONE"} : CircStep(c, to)
+     \/ \E x \in Subs, pr \in Prios : AddSub(x, pr)
+     \/ \E x \in Subs : RemSub(x)
+     \/ \E s \in Streams, kind \in {"normal", "exit", "resolve"}, p \in Ports, sa \in [Subs -> SubAnswers] : NewStreamP(s, kind, p, sa)
 
 Spec == Init /\ [][Next]_vars
 
@@ -188,5 +234,11 @@ Answered == \A s \in Streams : (st[s].seen /\ st[s].asked = 1 /\ st[s].ans = "-"
                (Len(st[s].dec) + st[s].rep = 1 \/ (st[s].dec = <<>> /\ st[s].rep = 0))
 \* a via-circuit connection is never refused: every one made while the attacher is (being) installed shares it
 ViaNeverRefused == \A k \in Conns : via[k].st \in {"idle", "waitconf", "waitbuilt", "waitaddr", "reg", "done", "failed"}
-TypeOK == att \in {"none", "A", "V"} /\ (~hold => cq = <<>>) /\ (hold => att = "V")
+\* priority composition: a sub-attacher is consulted only if every more important one (and every equally important
+\* one added earlier) was consulted before it in the same step
+ConsultedInOrder ==
+  \A i \in 1..Len(cons) : \A j \in 1..Len(ps) :
+     LET me == CHOOSE m \in 1..Len(ps) : ps[m].sub = cons[i] IN
+       (ps[j].prio < ps[me].prio \/ (ps[j].prio = ps[me].prio /\ j < me)) => \E h \in 1..(i - 1) : cons[h] = ps[j].sub
+TypeOK == att \in {"none", "A", "V", "P"} /\ (~hold => cq = <<>>) /\ (hold => att = "V")
 =============================================================================
